@@ -95,6 +95,7 @@ def run(tier, seed):
     its = items(tier)
     col = stepcheck.explore(its, MONS, H, D, who_fn=lambda sp: stepcheck.default_who(sp, facilities=False), seed=seed)
     col.merge(stepcheck.explore(stepcheck.edited_items(), MONS, 0, 0, seed=seed))  # runs after an earlier run and an in-place model edit
+    col.merge(stepcheck.explore(stepcheck.resumed_edit_items(("add-ff-link", "add-sf-link"), ks=(1,)), MONS, 0, 0, seed=seed))  # a link added at a stop (before the successor could have finished / started), run continued
     # a project stopped at step k and started again with the states reset and the logs kept (the new life cycle is appended to the old records)
     linked = [it for it in its if it[0]["links"] and it[1]["rule"] == "TSLACK" and not it[1].get("auto_abs")]
     rs = stepcheck.restarted_items(linked[:: (4 if tier == "quick" else 1)], ks=(1, 2, 3, 4))
